@@ -188,3 +188,19 @@ for lab, reac, prod, out in (
 
 from contracts import helpers
 helpers.install(P, 'list_to_dict', 'formula', 'reaction_parser')
+
+# ---- printing with every supported coefficient format, integer coefficients of one, two and three digits included ------------
+def named_sp(nm):
+    return Stub(nm, ['get_HoRT'], positive=(), name=nm, elements={'H': 2})
+
+
+for fmt in ('.2f', '.0f', 'g', '.3g', '.1f'):
+    for coeffs in ([20., 100., 3.], [10., 1., 200.], [2.5, 30., 0.5], [1., 1., 1., 1., 1., 1., 40.]):
+        names = ['CO2', 'H2', 'N2', 'Ar', 'He', 'Kr', 'Xe'][:len(coeffs)]
+        contract(RX + '_write_reaction_state', P, label='print-then-parse[fmt=%s,coefficients=%s]' % (fmt, ','.join('%g' % c for c in coeffs)),
+                 args=dict(species=ListOf([named_sp(nm) for nm in names]), stoich=Const(list(coeffs)), stoich_format=Const(fmt)),
+                 ensures=[('parses-back-to-the-same-species-and-coefficients',
+                           'pm.reaction._parse_reaction_state(result, species_delimiter="+")[0] == %r and '
+                           'all(abs(pm.reaction._parse_reaction_state(result, species_delimiter="+")[1][k] - %r[k]) <= %s for k in range(%d))'
+                           % (names, list(coeffs), '0.51' if fmt in ('.0f',) else ('0.06' if fmt == '.1f' else '0.006'), len(coeffs)))],
+                 cross_check=False)
